@@ -48,6 +48,17 @@ func (stressArea) Gen(r *hx.Rng, n int, tier string, emit func(string)) {
 		if tier == "thorough" && r.Chance(1, 10) {
 			tasks = 2000
 		}
+		if i%40 == 13 {
+			// simultaneous first use of fresh queues, many rounds in one child process
+			fp := hx.Pick(r, []int{2, 4, 4, 16})
+			rounds := 500
+			if fp == 2 {
+				rounds = 800 // with two Ps the racers overlap less often
+			}
+			emit(fmt.Sprintf("first %d %d %d %d %d", hx.Pick(r, []int{1, 1, 2, 5}), fp, hx.Pick(r, []int{2, 3, 4}), rounds,
+				r.U64()%1000000))
+			continue
+		}
 		flags := 0
 		switch {
 		case i%20 == 7:
@@ -120,13 +131,18 @@ func (a stressArea) Run(line string) string {
 
 func (stressArea) run1(line string) string {
 	f := strings.Fields(line)
-	if (len(f) != 11 && len(f) != 12) || f[0] != "run" {
+	child, procs := "child-stress", ""
+	if len(f) == 6 && f[0] == "first" {
+		child, procs = "child-first", f[2] // simultaneous first use of fresh queues (firstuse.go)
+	} else if (len(f) != 11 && len(f) != 12) || f[0] != "run" {
 		return "bad-op"
+	} else {
+		procs = f[3]
 	}
 	ctx, cancel := context.WithTimeout(context.Background(), 60*time.Second)
 	defer cancel()
-	cmd := exec.CommandContext(ctx, os.Args[0], append([]string{"child-stress"}, f[1:]...)...)
-	cmd.Env = append(os.Environ(), "GOMAXPROCS="+f[3], "GOTRACEBACK=single")
+	cmd := exec.CommandContext(ctx, os.Args[0], append([]string{child}, f[1:]...)...)
+	cmd.Env = append(os.Environ(), "GOMAXPROCS="+procs, "GOTRACEBACK=single")
 	var so, se bytes.Buffer
 	cmd.Stdout = &so
 	cmd.Stderr = &se
